@@ -67,6 +67,15 @@ def check_preserves(inp_html, out_html, what):
             no = [struct(x) for x in po.getRootNodes()]
             if ni != no:
                 return '%s of %r changed elements/attributes/text: %s -> %s' % (what, inp_html, json.dumps(ni), json.dumps(no))
+            # top-level text (text beside the root elements) with more than white space in it is not dropped either
+            from AdvancedHTMLParser.Tags import AdvancedTag as _T
+
+            def toptext(r):
+                if r.tagName != 'xxxblank':
+                    return ''
+                return re.sub(r'\s+', '', ''.join(b for b in r.blocks if not isinstance(b, _T)))
+            if toptext(ri) != toptext(ro):
+                return '%s of %r changed the top-level text %r -> %r (output %r)' % (what, inp_html, toptext(ri), toptext(ro), out_html)
             return None
     if si != so:
         return '%s of %r changed elements/attributes/text (whitespace removed): %s -> %s (output %r)' % (what, inp_html, json.dumps(si), json.dumps(so), out_html)
